@@ -548,7 +548,8 @@ def once_each(ctx, facts, rule):
             ok, wit = g.must_pass([0], tsites, avoid_edges=e)
             ctx.check(ok and bool(tsites), rule, g.path, g.span, "report() hands every non-empty batch to try_report", "",
                       "a path returns at bb%s without try_report" % wit, extra="report")
-            whole_batch(ctx, prov, rule, g, tr, name)
+            # (Jaeger's try_report cuts the batch into windows by design: C20's rules are about those windows)
+            whole_batch(ctx, prov, rule, g, tr, name, only=("report",) if name == "JaegerReporter" else None)
             cs = tr.calls(lambda t: t["callee"] == conv.path)
             ss = tr.calls_re(sendrx, cleanup=False)
             if not ss and name == "OpenTelemetryReporter":
